@@ -1,8 +1,10 @@
 #!/usr/bin/env bash
-# Builds the framework offline from files on disk (cold: a few minutes).
+# Builds the framework offline from files on disk (cold: ~4 min harness + ~5 min fuzz targets).
 set -e
 export CARGO_NET_OFFLINE=true
 cd /verif/harness
 cargo build --offline -p pchecks -p echecks
 cargo build --offline --release -p pchecks
-if [ -d /verif/fuzz ] && [ -x /verif/fuzz/build.sh ]; then /verif/fuzz/build.sh || echo "fuzz build failed (thorough fuzz tiers will be inconclusive)"; fi
+# libFuzzer targets are only needed by the thorough tiers of C11/C13/C14/C15; a failure here
+# makes those fuzz parts inconclusive, nothing else
+/verif/fuzz/build.sh || echo "fuzz build failed (thorough fuzz parts will be inconclusive)"
